@@ -239,12 +239,24 @@ def check(run, model, tier):
             for la in lock_attrs:
                 setattr(reg, la, pureeval.Obj())
             worlds.append((reg, n_inner))
+    # one large hand-built registry whose numbers are int objects of their own (CPython shares only small ints): a reader that compares numbers by identity
+    # works for the first 256 signals and fails beyond
+    big = _Reg()
+    for i in range(2):
+        big['INNER_%d' % i] = int(str(i + 1))
+    for i in range(300):
+        big['USER_%d' % i] = int(str(2 + i + 1))
+    big.highest_inner_signal = 2
+    for la in lock_attrs:
+        setattr(big, la, pureeval.Obj())
+    worlds.append((big, 2))
     bad_i, bad_n, n_eval, n_worlds, skipped = None, None, 0, 0, None
     decided_i = decided_n = False
     for wi, (reg, n_inner) in enumerate(worlds):
-        hand = not built or wi >= len(worlds) - 4
+        hand = not built or wi >= len(worlds) - 5
         total = len(reg)
-        probes = [(k, v <= n_inner) for k, v in reg.items()] + [(v, v <= n_inner) for v in reg.values()] + [('NEVER_SEEN', False), (total + 5, False), (0, False), (None, False)]
+        items_ = list(reg.items()) if len(reg) < 50 else list(reg.items())[:3] + list(reg.items())[-3:]
+        probes = [(k, v <= n_inner) for k, v in items_] + [(int(str(v)), v <= n_inner) for k, v in items_] + [('NEVER_SEEN', False), (total + 5, False), (0, False), (None, False)]
         try:
             for arg, want in probes:
                 try:
@@ -259,7 +271,8 @@ def check(run, model, tier):
             if not hand or not built:
                 skipped = str(ex_)
         try:
-            for k, v in reg.items():
+            for k, v in (list(reg.items()) if len(reg) < 50 else list(reg.items())[:3] + list(reg.items())[-3:]):
+                v = int(str(v))
                 try:
                     got = pureeval.call(nfs.node, [reg, v], strict_locals=True, methods=methods, globals_=pureeval.module_constants(model, src.module))
                 except pureeval.Raised as ex:
